@@ -16,6 +16,7 @@ import (
 	"os"
 	"os/exec"
 	"path/filepath"
+	"regexp"
 	"runtime"
 	"sort"
 	"strings"
@@ -388,6 +389,7 @@ func main() {
 	}
 	distinct := map[string]bool{}
 	sigCount := map[string]int{}
+	clsCount := map[string]int{}
 	for i, sc := range scripts {
 		o, fs := goOuts[i], goFs[i]
 		rep.Lines += len(sc)
@@ -398,8 +400,14 @@ func main() {
 		}
 		for _, f := range fs {
 			key := f.Prop + "/" + f.Sig
-			if sigCount[key] < 3 && len(rep.Findings) < 300 {
+			// at most 3 per signature AND per class of detail text (numbers and quoted strings
+			// masked): a finding whose detail differs in kind from the first three of its
+			// signature is kept, so that a known-finding entry that discriminates by detail
+			// sees it
+			cls := key + "|" + detailClass(f.Detail)
+			if clsCount[cls] < 3 && sigCount[key] < 24 && len(rep.Findings) < 400 {
 				rep.Findings = append(rep.Findings, FindingAt{Finding: f, Case: i, Script: sc})
+				clsCount[cls]++
 			}
 			sigCount[key]++
 		}
@@ -477,4 +485,20 @@ func loadCorpusFile(f string) [][]string {
 		sc = append(sc, l)
 	}
 	return [][]string{sc}
+}
+
+
+var (
+	reQuoted = regexp.MustCompile("\"(?:[^\"\\\\]|\\\\.)*\"")
+	reNumber = regexp.MustCompile("[0-9]+")
+)
+
+// detailClass masks quoted strings and numbers of a finding's detail text and cuts it short.
+func detailClass(d string) string {
+	d = reQuoted.ReplaceAllString(d, "\"…\"")
+	d = reNumber.ReplaceAllString(d, "#")
+	if len(d) > 160 {
+		d = d[:160]
+	}
+	return d
 }
